@@ -665,14 +665,32 @@ def readers_return_values_as_parsed(ctx):
     ctx.floor("fs_reader_functions", 20, "reader functions of Fs (read* / get*)")
     g = ctx.fn1("Oomd::Fs::getNrDyingDescendantsAt")
     X = Expander(P, g)
+    def unwrap(v):
+        # the converting constructor of the SystemMaybe around the value returned
+        for _ in range(4):
+            nd = g.nodes[g.strip(v)]
+            if nd["k"] == "construct" and len(nd.get("args", [])) == 1:
+                v = nd["args"][0]
+            elif nd["k"] == "cast" and "sub" in nd:
+                v = nd["sub"]
+            else:
+                break
+        return v
+    leaves = []
     for r, leaf in return_leaves(g):
+        alts = value_leaves(g, unwrap(leaf))
+        # `found ? it->second : 0` - the documented 0 for a missing entry next to the entry itself
+        if len(alts) > 1:
+            alts = [a for a in alts if const_int(g, a) != 0] or alts
+        leaves.extend((r, a) for a in alts)
+    for r, leaf in leaves:
         t = X(leaf)
         if "systemError" in t or "SYSTEM_ERROR" in t or t.startswith("Oomd::systemError"):
             continue
-        ctx.check(re.search(r'\[(std::\w+::key_type\()?"nr_dying_descendants"|\.at\((std::\w+::key_type\()?"nr_dying_descendants"|find\((std::\w+::key_type\()?"nr_dying_descendants"[^)]*\)*->second', t) is not None
+        ctx.check(re.search(r'\[(const )?(std::[\w:]+\()?"nr_dying_descendants"|\.at\((const )?(std::[\w:]+\()?"nr_dying_descendants"|find\((const )?(std::[\w:]+\()?"nr_dying_descendants"[^)]*\)*->second', t) is not None
                   and "min(" not in t and "max(" not in t,
                   "readers-return-values-as-parsed:nr_dying_descendants@%d" % g.nodes[r].get("line", 0), "provenance (Expander)", g.loc(r),
-                  "the reader returns the nr_dying_descendants entry of cgroup.stat", "getNrDyingDescendantsAt returns %s - not the nr_dying_descendants entry as parsed" % t[:100])
+                  "the reader returns the nr_dying_descendants entry of cgroup.stat", "getNrDyingDescendantsAt returns %s - not the nr_dying_descendants entry as parsed" % t[:400])
 
 
 def run(ctx):
